@@ -23,6 +23,10 @@ def check_dispositions(out: Outcome, tr: scenario.Trace, case: dict, *, strict_f
         id_ = j["id"]
         steps, end = model.chain(j, case.get("policy"))
         obs = tr.spy.for_id(id_, TERMINAL)
+        # a message fetched while the worker was already stopping is handed back unstarted (runner `_hand_back`): that is the
+        # return of an undelivered message, not the disposition of a delivery (C03 checks it is returned unchanged)
+        stop_t = getattr(tr, "stop_requested_at", None)
+        obs = [e for e in obs if not (e.op == "reject" and e.caller in ("_hand_back", "_run") and stop_t is not None and e.t >= stop_t)]
         min_len = len(steps)
         if end == "open" and len(obs) > len(steps):
             # a recurring job legitimately keeps running until the worker is stopped: extend the model chain
@@ -70,7 +74,8 @@ def check_dispositions(out: Outcome, tr: scenario.Trace, case: dict, *, strict_f
                 out.v("counter-seen", f"{tag}: execution {e.n} saw already_tried={e.tried}, expected {s.tried}")
                 break
         # final place
-        if strict_final and len(obs) >= min_len and not tr.horizon_hit:
+        # (when the scenario ran into its horizon an open chain may simply be unfinished; a chain whose last call completed is final)
+        if strict_final and len(obs) >= min_len and (not tr.horizon_hit or (end in ("acked", "dead") and all(e.done for e in obs))):
             places = tr.final.get(id_, [])
             desc = [p.short() for p in places]
             if end == "acked" and places:
